@@ -638,7 +638,7 @@ func ruleC02Zero(e *Env) {
 	const rule = "C02.zero"
 	if fn := e.Fn(rule, "roman", "DefaultFormatter"); fn != nil {
 		o := &ordOracle{ord: map[string]int{"n|0": 0}}
-		ev := &pred.Evaluator{Prog: e.P.SSA, Oracle: o}
+		ev := &pred.Evaluator{Prog: e.P.SSA, GlobalInit: e.globalTables(), Oracle: o}
 		out, err := ev.Eval(fn, []pred.Val{pred.Sym{Name: "buf"}, pred.Sym{Name: "n"}, pred.Sym{Name: "f"}})
 		switch {
 		case err != nil:
@@ -661,7 +661,7 @@ func ruleC02Zero(e *Env) {
 			r = bit
 		}
 		o := &ordOracle{ord: map[string]int{"len(input)|0": 0}}
-		ev := &pred.Evaluator{Prog: e.P.SSA, Oracle: o}
+		ev := &pred.Evaluator{Prog: e.P.SSA, GlobalInit: e.globalTables(), Oracle: o}
 		out, err := ev.Eval(dp, []pred.Val{pred.Sym{Name: "input"}, pred.Const{V: constant.MakeInt64(r)}})
 		if err != nil {
 			e.S.Unk(rule, flow.FnName(dp), construct, err.Error(), e.Pos(dp))
